@@ -6,7 +6,7 @@ creating / truncating], ("unlink", p), ("rmdir", p), ("rename", src, dst), ("tru
 import os
 import sys
 
-_state = {"root": None, "events": None, "kill_at": None, "installed": False, "on": False}
+_state = {"root": None, "events": None, "kill_at": None, "installed": False, "on": False, "reads": None}
 
 
 def _resolve(path, dir_fd=None):
@@ -46,6 +46,16 @@ def _hook(event, args):
                 p = _resolve(path)
                 if p and not os.path.isdir(p):
                     _record(("write", p))
+            elif _state["reads"] is not None:
+                p = _resolve(path)
+                root = _state["root"]
+                if p and (p == root or p.startswith(root + os.sep)):
+                    _state["reads"].add(os.path.relpath(p, root))
+        elif event in ("os.listdir", "os.scandir") and _state["reads"] is not None:
+            p = _resolve(args[0]) if args and args[0] is not None else None
+            root = _state["root"]
+            if p and (p == root or p.startswith(root + os.sep)):
+                _state["reads"].add(os.path.relpath(p, root) + "/")
         elif event == "os.mkdir":
             _record(("mkdir", _resolve(args[0], args[2] if len(args) > 2 and args[2] != -1 else None)))
         elif event == "os.rename":
@@ -65,11 +75,15 @@ def _hook(event, args):
         pass
 
 
-def start(root, kill_at=None):
+def start(root, kill_at=None, reads=False):
     if not _state["installed"]:
         sys.addaudithook(_hook)
         _state["installed"] = True
-    _state.update(root=os.path.abspath(str(root)), events=[], kill_at=kill_at, on=True)
+    _state.update(root=os.path.abspath(str(root)), events=[], kill_at=kill_at, on=True, reads=set() if reads else None)
+
+
+def reads_seen():
+    return set(_state["reads"] or ())
 
 
 def stop():
